@@ -468,4 +468,171 @@ theorem flush_invS {sn0 : U32} {k : Kcp} {L : List Content} (h : InvS sn0 k L) (
       · rw [List.mem_singleton.mp h3]; exact h1
     · exact h2 o ho
 
+/-! ### Send -/
+
+theorem mkSegs_len (mss : Nat) (st : Bool) : ∀ (c : Nat) (buf : Bytes), ∀ s ∈ mkSegs mss st c buf,
+    s.data.length ≤ min buf.length mss := by
+  intro c
+  induction c with
+  | zero => intro buf s hs; simp [mkSegs] at hs
+  | succ c ih =>
+    intro buf s hs
+    unfold mkSegs at hs
+    rcases List.mem_cons.mp hs with h1 | h1
+    · rw [h1]; simp; omega
+    · have := ih (buf.drop mss) s h1
+      simp at this; omega
+
+theorem mem_setLast (l : List Seg) (x s : Seg) (h : s ∈ setLast l x) : s = x ∨ s ∈ l := by
+  unfold setLast at h
+  rcases List.mem_append.mp h with h1 | h1
+  · rw [List.dropLast_eq_take] at h1; exact Or.inr (List.mem_of_mem_take h1)
+  · exact Or.inl (List.mem_singleton.mp h1)
+
+theorem sendQ1_len (k : Kcp) (buffer : Bytes) (hq : ∀ s ∈ k.snd_queue, s.data.length ≤ mtuLimit)
+    (hp : sendPanic1 k buffer = false) : ∀ s ∈ sendQ1 k buffer, s.data.length ≤ mtuLimit := by
+  unfold sendQ1
+  split
+  · rename_i hext
+    cases hl : k.snd_queue.getLast? with
+    | none => simpa using hq
+    | some x =>
+      simp only []
+      intro s hs
+      rcases mem_setLast _ _ _ hs with h1 | h1
+      · rw [h1]
+        unfold sendPanic1 at hp
+        rw [hl] at hp
+        simp only [decide_eq_false_iff_not] at hp
+        simp only [List.length_append, List.length_take]
+        have : ¬ (x.data.length + sendExt k buffer > mtuLimit) := fun hc => hp ⟨hext, hc⟩
+        omega
+      · exact hq s h1
+  · exact hq
+
+/-- `Send` keeps the invariant (it only appends to / extends the tail of `snd_queue`) -/
+theorem send_invS {sn0 : U32} {k : Kcp} {L : List Content} (h : InvS sn0 k L) (buffer : Bytes)
+    (hp : (send k buffer).panic = false) : InvS sn0 (send k buffer).k L := by
+  rw [send_eq] at hp ⊢
+  split
+  · exact h
+  · rename_i h0
+    rw [if_neg h0] at hp
+    split
+    · exact h
+    · rename_i h1
+      rw [if_neg h1] at hp
+      have hq1 := sendQ1_len k buffer h.que (by simpa using h1)
+      split
+      · exact ⟨h.nxt, h.buf, hq1⟩
+      · rename_i h2
+        rw [if_neg h2] at hp
+        split
+        · exact ⟨h.nxt, h.buf, hq1⟩
+        · rename_i h3
+          rw [if_neg h3] at hp
+          split
+          · rename_i h4; rw [if_pos h4] at hp; cases hp
+          · rename_i h4
+            refine ⟨h.nxt, h.buf, ?_⟩
+            intro s hs
+            rcases List.mem_append.mp hs with h5 | h5
+            · exact hq1 s h5
+            · have := mkSegs_len _ _ _ _ s h5
+              omega
+
+/-! ### Input / Update on the send side -/
+
+theorem inSt1_queue (regular : Bool) (st : InLoop) (hd : Hdr) :
+    (inSt1 regular st hd).k.snd_queue = st.k.snd_queue := by
+  unfold inSt1 shrinkBuf parseUna
+  simp only []
+  repeat' split
+  all_goals rfl
+
+theorem inSt2_queue (st1 : InLoop) (hd : Hdr) (body : Bytes) :
+    (inSt2 st1 hd body).k.snd_queue = st1.k.snd_queue := by
+  unfold inSt2
+  simp only []
+  split
+  · unfold parseFastack parseAck
+    repeat' split
+    all_goals rfl
+  · split
+    · split
+      · split
+        · exact (parseData_sndSame _ _).snd_queue
+        · rfl
+      · rfl
+    · split <;> rfl
+
+theorem inputLoop_queue (regular : Bool) :
+    ∀ (fuel : Nat) (data : Bytes) (st : InLoop), (inputLoop regular fuel data st).k.snd_queue = st.k.snd_queue := by
+  intro fuel
+  induction fuel with
+  | zero => intro data st; rfl
+  | succ fuel ih =>
+    intro data st
+    rw [inputLoop_succ]
+    have h2 : (inSt2 (inSt1 regular st (parseHdr data)) (parseHdr data) (data.drop IKCP_OVERHEAD)).k.snd_queue =
+        st.k.snd_queue := (inSt2_queue _ _ _).trans (inSt1_queue _ _ _)
+    split
+    · rfl
+    · split
+      · rfl
+      · split
+        · rfl
+        · split
+          · rfl
+          · split
+            · exact h2
+            · rw [ih]; exact h2
+
+theorem admitted_self (k k' : Kcp) (h : k'.snd_queue = k.snd_queue) : admitted k k' = [] := by
+  unfold admitted; rw [h]; simp
+
+theorem admitted_congr (k k1 k' : Kcp) (h : k1.snd_queue = k.snd_queue) : admitted k k' = admitted k1 k' := by
+  unfold admitted; rw [h]
+
+theorem input_invS {sn0 : U32} {k : Kcp} {L : List Content} (h : InvS sn0 k L) (data : Bytes)
+    (regular ackNoDelay : Bool) (now : U32) :
+    InvS sn0 (input k data regular ackNoDelay now).k (L ++ admitted k (input k data regular ackNoDelay now).k) ∧
+    ∀ G, Agree G sn0 (L ++ admitted k (input k data regular ackNoDelay now).k) →
+      (input k data regular ackNoDelay now).panic = false →
+      ∀ o ∈ (input k data regular ackNoDelay now).outs, Framed G o := by
+  rw [input_eq]
+  split
+  · rw [admitted_self k k rfl]
+    exact ⟨by simpa using h, fun _ _ _ o ho => by cases ho⟩
+  · have hl := inputLoop_invS (sn0 := sn0) (L := L) regular (data.length / IKCP_OVERHEAD + 1) data { k := k } h
+    have hq := inputLoop_queue regular (data.length / IKCP_OVERHEAD + 1) data { k := k }
+    generalize inputLoop regular (data.length / IKCP_OVERHEAD + 1) data { k := k } = st at hl hq
+    have h2 : InvS sn0 (inputK2 k st regular now) L := hl.same (inputK2_same _ _ _ _).2
+    have hq2 : (inputK2 k st regular now).snd_queue = k.snd_queue :=
+      (inputK2_same k st regular now).2.snd_queue.trans hq
+    rcases inputTail_cases k st regular ackNoDelay now with h1 | h1 | ⟨full, h1⟩
+    · rw [h1.1, h1.2, admitted_self k st.k hq]
+      exact ⟨by simpa using hl, fun _ _ _ o ho => by cases ho⟩
+    · rw [h1.1, h1.2, admitted_self k _ hq2]
+      exact ⟨by simpa using h2, fun _ _ _ o ho => by cases ho⟩
+    · have hf := flush_invS h2 full now
+      rw [h1.1, h1.2.1, h1.2.2, admitted_congr k (inputK2 k st regular now) _ hq2]
+      exact hf
+
+theorem update_invS {sn0 : U32} {k : Kcp} {L : List Content} (h : InvS sn0 k L) (now : U32) :
+    InvS sn0 (update k now).k (L ++ admitted k (update k now).k) ∧
+    ∀ G, Agree G sn0 (L ++ admitted k (update k now).k) → (update k now).panic = false →
+      ∀ o ∈ (update k now).outs, Framed G o := by
+  rw [update_eq]
+  split
+  · obtain ⟨h1, h2, _, _⟩ := updPre_same k now (updTf k now)
+    have h' : InvS sn0 { updPre k now with ts_flush := updTf k now } L :=
+      h.congr h2.snd_nxt h1.snd_una h2.snd_buf h2.snd_queue
+    have hf := flush_invS h' true now
+    rw [admitted_congr k { updPre k now with ts_flush := updTf k now } _ h2.snd_queue]
+    exact hf
+  · obtain ⟨_, _, h1, h2⟩ := updPre_same k now 0
+    rw [admitted_self k (updPre k now) h2.snd_queue]
+    exact ⟨by simpa using h.congr h2.snd_nxt h1.snd_una h2.snd_buf h2.snd_queue, fun _ _ _ o ho => by cases ho⟩
+
 end KcpVerif.Send
